@@ -981,7 +981,9 @@ def jarg_lit(a):
         return "(JSp %s %s)" % (fmt_lit(a), vlib.spec_coo_lit(a["spec"]))
     if a["kind"] == "dense":
         return "(JDn (mkDense %s %s))" % (vlist(a["shape"]), vlist(a["flat"]))
-    return "(JDn (mkDense [] [%s]))" % vZ(a["v"])
+    if a["kind"] == "np0d":
+        return "(JDn (mkDense [] [%s]))" % vZ(a["v"])
+    return "(JSc %s)" % vZ(a["v"])
 
 
 def api_lit(case, res):
@@ -1047,17 +1049,7 @@ def classify_api(case, res, code):
     out = res.get("out", res)
     if code in (2, 3, 5) and isinstance(out, dict):
         got = str(out.get("cls") or out.get("k") or ("hang" if out.get("hang") else "exc"))
-        msg = str(out.get("msg") or out.get("repr") or "")
-        zero_d_dok = any(a["kind"] == "sparse" and a["spec"]["format"] == "dok" and a["spec"]["shape"] == []
-                         and a["spec"]["data"] for a in case["args"])
-        if zero_d_dok and "Invalid iterable to convert to COO" in msg:
-            clause = "zero_d_dok_operand_with_stored_value"
-        elif code == 3 and got == "AttributeError" and "'int' object has no attribute 'dtype'" in msg:
-            clause = "python_scalar_with_empty_ndarray"
-        elif code == 3 and got.startswith("corrupt-") and case["form"] in ("inplace", "out"):
-            clause = "inplace_or_out_on_zero_extent_gcxs_dok"
-        else:
-            clause = f"{clause}:got_{got}"
+        clause = f"{clause}:got_{got}"
     return {"property": "C01", "op": "elemwise", "call": f"{case['op']}/{case['form']}", "kind": kind, "clause": clause,
             "code": code, "group": case["group"], "layout": layout_tag([arg_shape(a) for a in case["args"]]),
             "case": case, "impl": out, "replay_py": replay_line(case)}
@@ -1208,9 +1200,9 @@ def campaign(build, tier, seed, report, budget=1):
 
 
 UNPROVED = [
-    "elemwise_api_den holds under two named domain clauses of the final asformat conversion (api_hop_ok): the hop is "
-    "accepted for the result's shape (Convert.hop_okb: valid compressed axes) and a 0-d result is not converted to DOK "
-    "(C05 finding zero_dim_from_iter); scipy.sparse operands (COO.from_scipy_sparse) are covered by correspondence only",
+    "elemwise_api_den holds under one named domain clause of the final asformat conversion (api_hop_ok): the hop is "
+    "accepted for the result's shape (Convert.hop_okb: valid compressed axes); scipy.sparse operands "
+    "(COO.from_scipy_sparse) are covered by correspondence only",
     "store_programs_den models objects as whole attribute dictionaries (C11's shallow_copy_of): views of the coords/data "
     "buffers and DOK item assignment are not in the statement language; dtype changes of astype are value-preserving only",
     "ufunc dtype resolution, astype casting, float / complex semantics, overflow: differential only (coverage.differential_only)",
